@@ -27,6 +27,8 @@ type byteStore struct {
 	sets   int
 	gets   int
 	setIDs []string // the id of every Set call, in order
+	failAt int      // > 0: the failAt-th Set call fails (and stores nothing)
+	failed int      // Set calls that failed
 }
 
 func newStore() *byteStore { return &byteStore{m: map[string][]byte{}} }
@@ -47,8 +49,18 @@ func (s *byteStore) Set(ctx context.Context, id string, b []byte) error {
 	defer s.mu.Unlock()
 	s.sets++
 	s.setIDs = append(s.setIDs, id)
+	if s.failAt > 0 && s.sets == s.failAt {
+		s.failed++
+		return errors.New("store: disk full")
+	}
 	s.m[id] = append([]byte(nil), b...)
 	return nil
+}
+
+func (s *byteStore) failures() int {
+	s.mu.Lock()
+	defer s.mu.Unlock()
+	return s.failed
 }
 
 func (s *byteStore) setsSince(n int) []string {
@@ -180,6 +192,7 @@ type SegObs struct {
 	// WrapLost: the information could be extracted from the returned error but not from the same error
 	// wrapped once more by the caller (fmt.Errorf("...: %w", err)), or not the same information
 	WrapLost bool `json:"wrap_lost,omitempty"`
+	SetFailed bool   `json:"set_failed,omitempty"` // a store.Set call made by this call returned an error
 	Sets    int      `json:"sets"`   // store.Set calls made by this call
 	Stored  bool     `json:"stored"` // a checkpoint exists under the id after the call
 	Execs   []*Exec  `json:"execs"`
@@ -323,9 +336,10 @@ func call(r compose.Runnable[map[string]any, map[string]any], rec *recorder, st 
 	seg0 := rec.seg
 	e0, v0, m0 := len(rec.execs), len(rec.events), len(rec.mods)
 	rec.mu.Unlock()
-	sets0 := 0
+	sets0, fails0 := 0, 0
 	if st != nil {
 		sets0, _ = st.snapshot()
+		fails0 = st.failures()
 	}
 	var opts []compose.Option
 	if withID {
@@ -431,6 +445,7 @@ func call(r compose.Runnable[map[string]any, map[string]any], rec *recorder, st 
 		sets1, ids := st.snapshot()
 		seg.Sets = sets1 - sets0
 		seg.SetIDs = st.setsSince(sets0)
+		seg.SetFailed = st.failures() > fails0
 		seg.Stored = len(ids) > 0
 	}
 	return seg
@@ -475,6 +490,12 @@ func Execute(c *Case) *RunObs {
 	rec := newRecorder(true)
 	st := newStore()
 	ib := &builder{c: c, rec: rec, withIntr: true, store: st}
+	if c.NoStore {
+		st = nil
+		ib.store = nil
+	} else {
+		st.failAt = c.SetFailAt
+	}
 	var ir compose.Runnable[map[string]any, map[string]any]
 	if p := lib.Recover(func() { ir, err = ib.compile(ctx) }); p != nil {
 		obs.CompileErr = fmt.Sprint("panic: ", p)
